@@ -68,7 +68,15 @@ def gen_case(rng):
     decay = rng.choice([(0.0, 0.0), (0.0, 0.0), (1.5, 1.0), (6.0, 6.0), (2.0, 0.5), (0.8, 2.0), (3.0, 1.0)])
     base = rng.choice([500.0, 700.0, 1000.0])
     minf = rng.choice([0.0, 0.0, 0.0, 100.0, 350.0, 499.0, 1e-9, 700.0 if rng.random() < 0.3 else 10.0, -1.0 if rng.random() < 0.1 else 0.0])
-    crit = rng.choice([['always'], ['chain'], ['chain'], ['region', [[101, 103], [104, 120]]], ['region', [[1, 3], [103, 101]]]])
+    crit = rng.choice([['always'], ['chain'], ['chain'], ['region', [[101, 103], [104, 120]]], ['region', [[1, 3], [103, 101]]], ['regions'], ['regions']])
+    if crit == ['regions']:
+        # 1-3 residue regions over the effective residue numbers of this molecule: disjoint, overlapping or nested, in any order
+        eff = sorted({nd['old_resid'] if nd['old_resid'] is not None else nd['resid'] for nd in nodes})
+        regs = []
+        for _ in range(rng.randint(1, 3)):
+            a, b = sorted([rng.choice(eff), rng.choice(eff)])
+            regs.append([a - rng.choice([0, 0, 1]), b + rng.choice([0, 0, 2])])
+        crit = ['region', regs]
     return {'nodes': nodes, 'edges': edges, 'lower': lower, 'upper': upper, 'decay_factor': decay[0], 'decay_power': decay[1],
             'base': base, 'minf': minf, 'sep': rng.choice([0, 1, 1, 2, 2, 3]), 'crit': crit}
 
@@ -229,7 +237,7 @@ def nontrivial(inp, out):
 
 
 def describe(inp, out):
-    return {'n_nodes': len(inp['nodes']), 'n_selected': sum(1 for nd in inp['nodes'] if nd['sel']), 'crit': inp['crit'][0],
+    return {'n_nodes': len(inp['nodes']), 'n_selected': sum(1 for nd in inp['nodes'] if nd['sel']), 'crit': inp['crit'][0], 'regions_overlap': inp['crit'][0] == 'region' and any(a[0] <= b[1] and b[0] <= a[1] for i, a in enumerate(inp['crit'][1]) for b in inp['crit'][1][i + 1:]),
             'sep': inp['sep'], 'n_bonds': min(len(out.get('bonds', [])), 20), 'error': out.get('error', 'none'),
             'warned_nan': out['warned'], 'negative_minf': inp['minf'] < 0,
             'decay': (inp['decay_factor'], inp['decay_power']) != (0.0, 0.0)}
